@@ -61,7 +61,12 @@ func jobsFor(prop, tier string) []Job {
 				add("heap", fmt.Sprintf("%s.%s.n%d.p3", k, c, n), n*10, map[string]string{"c": k, "cmp": c}, map[string]int{"n": n, "pmax": 3, "jsonlen": pick(3, 4)})
 				if !q {
 					add("heap", fmt.Sprintf("%s.%s.n8.p2", k, c), 100, map[string]string{"c": k, "cmp": c}, map[string]int{"n": 8, "pmax": 2, "jsonlen": 4})
+					add("heap", fmt.Sprintf("%s.%s.deep.n9.p3", k, c), 100, map[string]string{"c": k, "cmp": c}, map[string]int{"n": 9, "pmax": 3, "ids": 1, "jsonlen": 3})
 				}
+				// deep job: the bulk-Push heapify and sift loops only reach the third level of the
+				// array with >= 9 elements (a new element at index >= 7 has its parent at index >= 3)
+				dn := pick(10, 13)
+				add("heap", fmt.Sprintf("%s.%s.deep.n%d.p2", k, c, dn), 60, map[string]string{"c": k, "cmp": c}, map[string]int{"n": dn, "pmax": 2, "ids": 1, "jsonlen": 3})
 			}
 		}
 	case "C08":
@@ -82,10 +87,15 @@ func jobsFor(prop, tier string) []Job {
 		for _, c := range []string{"rbt", "avl", "treemap"} {
 			add("iter", c, 20, map[string]string{"c": c}, map[string]int{"n": pick(8, 11), "rank": 1})
 		}
+		// B-tree iterators descend/climb through every level: height 4 first exists at 15 keys for
+		// orders 3 and 4 (2*ceil(m/2)^(h-1)-1), height 3 at 17 keys for order 5
 		for _, m := range []int{3, 4} {
-			add("iter", fmt.Sprintf("btree%d", m), 30, map[string]string{"c": "btree"}, map[string]int{"m": m, "n": pick(10, 16), "rank": 1})
+			add("iter", fmt.Sprintf("btree%d", m), 30, map[string]string{"c": "btree"}, map[string]int{"m": m, "n": pick(16, 19), "rank": 1, "fullpred": 3})
 		}
-		add("iter", "btree5", 40, map[string]string{"c": "btree"}, map[string]int{"m": 5, "n": 18, "rank": 1})
+		add("iter", "btree5", 40, map[string]string{"c": "btree"}, map[string]int{"m": 5, "n": pick(18, 21), "rank": 1, "fullpred": 3})
+		if !q {
+			add("iter", "btree6", 40, map[string]string{"c": "btree"}, map[string]int{"m": 6, "n": 23, "rank": 1, "fullpred": 3})
+		}
 	case "C13":
 		u := pick(3, 4)
 		add("setalg", fmt.Sprintf("hashset.u%d", u), 1, map[string]string{"c": "hashset"}, map[string]int{"u": u})
@@ -185,6 +195,15 @@ func jobsFor(prop, tier string) []Job {
 				jb.p["n"] = 5 // the list alphabet is ~200 operations per state; depth-2 differential stays affordable
 			}
 			add("c15", jb.id, jb.w, jb.s, jb.p)
+		}
+		// the C15 invariants are part of every box's state oracle: the family searches of the
+		// other properties (with their own, larger bounds) are re-run with the C15 oracle
+		for _, p := range []string{"C01", "C03", "C04", "C05", "C06"} {
+			for _, sj := range jobsFor(p, tier) {
+				sj.ID = "C15.via" + sj.ID
+				sj.Prop = "C15"
+				jobs = append(jobs, sj)
+			}
 		}
 	case "C16":
 		for _, jb := range allContainerJobs(q) {
@@ -343,7 +362,7 @@ func init() {
 		exploreJob(j, r, intSetSys(j.s("c", ""), j.s("cmp", "nat"), j.p("u", 4)), nil)
 	}
 	jobKinds["heap"] = func(j Job, r *JobResult) {
-		s := heSys(j.s("c", ""), j.s("cmp", "min"), j.p("n", 5), j.p("pmax", 3), j.p("jsonlen", 3))
+		s := heSysIDs(j.s("c", ""), j.s("cmp", "min"), j.p("n", 5), j.p("pmax", 3), j.p("jsonlen", 3), j.p("ids", 2))
 		exploreJob(j, r, s, func(e *Explorer) {
 			e.OnState = func(path []Op, build func() Inst, st *Stats) *Viol {
 				st.Nested["drains"]++
